@@ -80,6 +80,12 @@ def evaluate(case):
         key = ([l for l in extra.get('stderr', '').splitlines() if 'ERROR' in l or 'runtime error' in l or 'VSCHED' in l or 'Assertion' in l] or [st])[0]
         return ('crash:' + f1.normalize_diag(key), 'harness %s: %s' % (st, extra.get('stderr', '')[:900])), set()
     bad, classes = sched.check_futex(case, events)
+    if extra.get('early') and not bad:
+        tid, idx, elapsed, tmo = extra['early'][0]
+        bad = ('early-timeout', 'thread %d op %d: wait returned 2 (timed-out) %d ns after it began although its timeout is %d ns (virtual clock: time passes only '
+               'when a timeout fires or a timed waiter is woken spuriously; %d spurious wake-ups in this schedule)' % (tid, idx, elapsed, tmo, extra.get('spurious', -1)))
+    if extra.get('spurious', 0) >= 2 and any(op[0] in (0, 1) and 0 < op[3] < (1 << 50) for ops in case['threads'].values() for op in ops):
+        classes = set(classes) | {'timed_wait_schedule_with>=2_spurious_wakeups'}
     if case.get('be') and classes:
         classes = set(classes) | {'big_endian_runtime_paths'}
     return bad, classes
